@@ -52,6 +52,7 @@ var (
 	errNullable = errors.New("rule-matches-empty-text")
 	errNoSpec   = errors.New("class-rule-without-specialisation")
 	errClassSC  = errors.New("keyword-start-conditions-differ-from-class")
+	errClassTie = errors.New("two-class-rules-match-the-same-keyword")
 )
 
 const eoiDepth = 6
@@ -178,7 +179,10 @@ func newRefLexer(g *lexGrammar, mask int) (*refLexer, error) {
 						cand = append(cand, ci)
 					}
 				}
-				size, rule, _, _ := rl.scan(cand, syms, 0)
+				size, rule, tie, _ := rl.scan(cand, syms, 0)
+				if tie {
+					return nil, errClassTie
+				}
 				if rule >= 0 && size == len(val) {
 					cr = rule
 					break
